@@ -905,7 +905,176 @@ class Model:
             if it["kind"] == "const":
                 gated |= cfg_mentions(it.get("attrs", []))
         t["wire_gating_features"] = sorted(gated)
+        t["arb"] = self.arb_tables()
         return t
+
+    # ------------------------------------------------------------------ src/arbitrary.rs (C19)
+    ARB_STR = ("{letn=usize::arbitrary(u)?%CLAMP%;matchcore::str::from_utf8(u.peek_bytes(n).ok_or(Error::NotEnoughData)?)"
+               "{Ok(s)=>{u.bytes(n)?;Ok(s.try_into().unwrap())}Err(e)=>{leti=e.valid_up_to();letvalid=u.bytes(i)?;"
+               "lets=unsafe{core::str::from_utf8_unchecked(valid)};Ok(s.try_into().unwrap())}}}")
+    ARB_BYTES = "{letn=usize::arbitrary(u)?%CLAMP%;Ok(Bytes::from_slice(u.bytes(n)?).unwrap())}"
+    ARB_VEC = ("{letmutvec=Vec::new();u.arbitrary_loop(Some(0),Some(%MAX%.try_into().unwrap()),|u|{vec.push(u.arbitrary()?)"
+               ".unwrap();Ok(ControlFlow::Continue(()))})?;Ok(vec)}")
+    ARB_BYTE_ARRAY = ("{letbytes:&[u8;N]=u.bytes(N)?.try_into().unwrap();"
+                      "Ok(unsafe{&*(bytesas*const[u8;N]as*constByteArray<N>)})}")
+    ARB_OPTION = "{ifbool::arbitrary(u)?{f(u).map(Some)}else{Ok(None)}}"
+    ARB_KEY = "{letx=arbitrary_bytes(u)?;lety=arbitrary_bytes(u)?;Ok(EcdhEsHkdf256PublicKey{x,y})}"
+    ARB_MODELLED = [("webauthn", "PublicKeyCredentialRpEntity"), ("webauthn", "PublicKeyCredentialUserEntity"),
+                    ("webauthn", "FilteredPublicKeyCredentialParameters"), ("ctap2", "AttestationFormatsPreference"),
+                    ("ctap2::get_assertion", "HmacSecretInput")]
+
+    def arb_tables(self):
+        """shape parameters of the generator helpers and the draw lists of the hand-written
+        `Arbitrary` impls that are modelled; anything unrecognised is Untranslatable"""
+        feats = frozenset({"arbitrary", "std"})
+
+        def body(name):
+            f = self.find_fn(name, "arbitrary")
+            if f is None:
+                raise Untranslatable("arbitrary::" + name, "function not found")
+            return f["body"].replace(" ", ""), f["sig"].replace(" ", "")
+
+        shape = {}
+        b, sig = body("arbitrary_str")
+        if "->Result<String<N>>" not in sig:
+            raise Untranslatable("arbitrary_str", "signature changed")
+        if b == self.ARB_STR.replace("%CLAMP%", ".min(N)"):
+            shape["str_clamp"] = True
+        elif b == self.ARB_STR.replace("%CLAMP%", ""):
+            shape["str_clamp"] = False
+        else:
+            raise Untranslatable("arbitrary_str", "body not of a recognised shape")
+        b, sig = body("arbitrary_bytes")
+        if "->Result<Bytes<N>>" not in sig:
+            raise Untranslatable("arbitrary_bytes", "signature changed")
+        if b == self.ARB_BYTES.replace("%CLAMP%", ".min(N)"):
+            shape["bytes_clamp"] = True
+        elif b == self.ARB_BYTES.replace("%CLAMP%", ""):
+            shape["bytes_clamp"] = False
+        else:
+            raise Untranslatable("arbitrary_bytes", "body not of a recognised shape")
+        b, sig = body("arbitrary_vec")
+        if "->Result<Vec<T,N>>" not in sig:
+            raise Untranslatable("arbitrary_vec", "signature changed")
+        m = None
+        for cand, rx in (("N", 0),):
+            if b == self.ARB_VEC.replace("%MAX%", "N"):
+                m = 0
+        if m is None:
+            mm = re.fullmatch(re.escape(self.ARB_VEC).replace(re.escape("%MAX%"), r"\(N\+(\d+)\)"), b)
+            if mm:
+                m = int(mm.group(1))
+        if m is None:
+            raise Untranslatable("arbitrary_vec", "body not of a recognised shape")
+        shape["vec_max_extra"] = m
+        for name, exp in (("arbitrary_byte_array", self.ARB_BYTE_ARRAY), ("arbitrary_option", self.ARB_OPTION),
+                          ("arbitrary_key", self.ARB_KEY)):
+            b, _ = body(name)
+            if b != exp:
+                raise Untranslatable(name, "body not of the recognised shape")
+
+        def split_stmts(bd):
+            assert bd[0] == "{" and bd[-1] == "}"
+            bd = bd[1:-1]
+            out, depth, cur = [], 0, ""
+            for ch in bd:
+                if ch in "({[":
+                    depth += 1
+                elif ch in ")}]":
+                    depth -= 1
+                if ch == ";" and depth == 0:
+                    out.append(cur)
+                    cur = ""
+                else:
+                    cur += ch
+            if cur:
+                out.append(cur)
+            return out
+
+        def cap_of(ty, module):
+            return self.const_arg(ty["args"][-1], module, feats)
+
+        impls = []
+        for module, name in self.ARB_MODELLED:
+            imp = None
+            for i in self.impls:
+                if i["module"] == "arbitrary" and (i["trait"] or "").replace(" ", "").startswith("Arbitrary<") and \
+                        i["self_ty"].replace(" ", "").split("<")[0].split("::")[-1] == name:
+                    imp = i
+            it = self.lookup(name, module, ("struct",), feats)
+            if imp is None or it is None:
+                raise Untranslatable("arbitrary::" + name, "hand-written Arbitrary impl not found")
+            fn = [f for f in imp["items"] if f["kind"] == "fn" and f["name"] == "arbitrary"]
+            if len(fn) != 1:
+                raise Untranslatable("arbitrary::" + name, "no fn arbitrary")
+            stmts = split_stmts(fn[0]["body"].replace(" ", ""))
+            fields = [f for f, _ in self.fields_of(it, feats)]
+            fidx = {f["name"]: i for i, f in enumerate(fields)}
+            draws = []
+            lets = {}
+            for st in stmts[:-1]:
+                mm = re.fullmatch(r"let(\w+)=(.*)", st)
+                if not mm:
+                    raise Untranslatable("arbitrary::" + name, "statement not a let: " + st[:60])
+                lets[mm.group(1)] = mm.group(2)
+            last = stmts[-1]
+            if it["tuple"]:
+                mm = re.fullmatch(r"Ok\(Self\((\w+)\)\)", last)
+                order = [(mm.group(1), 0)] if mm else None
+            else:
+                mm = re.fullmatch(r"Ok\(Self\{([\w,]*)\}\)", last)
+                order = [(n, fidx.get(n)) for n in mm.group(1).strip(",").split(",")] if mm else None
+            if not order or any(i is None for _, i in order) or sorted(i for _, i in order) != list(range(len(fields))):
+                raise Untranslatable("arbitrary::" + name, "constructor expression not recognised")
+            if list(lets) != [n for n, _ in order] and set(lets) != {n for n, _ in order}:
+                raise Untranslatable("arbitrary::" + name, "lets and constructor disagree")
+            for var, expr in lets.items():      # draw order = statement order
+                i = dict(order)[var]
+                ty = fields[i]["ty"]
+                inner = ty["args"][0] if ty["name"] == "Option" else ty
+                if expr == "arbitrary_str(u)?" and ty["name"] == "String":
+                    d = {"k": "str", "cap": cap_of(ty, it["module"])}
+                elif expr == "ifbool::arbitrary(u)?{Some(arbitrary_str(u)?)}else{None}" and ty["name"] == "Option" and inner["name"] == "String":
+                    d = {"k": "optStr", "cap": cap_of(inner, it["module"])}
+                elif expr == "arbitrary_bytes(u)?" and ty["name"] == "Bytes":
+                    d = {"k": "bytes", "cap": cap_of(ty, it["module"])}
+                elif expr == "arbitrary_key(u)?" and ty["name"] == "EcdhEsHkdf256PublicKey":
+                    d = {"k": "key"}
+                elif expr in ("Arbitrary::arbitrary(u)?", "u.arbitrary()?") and ty["name"] == "Option" and inner["name"] == "Icon":
+                    ic = self.lookup("Icon", it["module"], ("struct",), feats)
+                    if not ic or not ic["unit"] or "Arbitrary" not in derives(effective_attrs(ic["attrs"], feats)[1]):
+                        raise Untranslatable("Icon", "expected a unit struct deriving Arbitrary")
+                    d = {"k": "optUnit"}
+                elif expr in ("Arbitrary::arbitrary(u)?", "u.arbitrary()?") and ty["name"] == "bool":
+                    d = {"k": "bool"}
+                elif expr in ("Arbitrary::arbitrary(u)?", "u.arbitrary()?") and ty["name"] == "Option" and inner["name"] == "u32":
+                    d = {"k": "optU32"}
+                elif expr == "arbitrary_vec(u)?" and ty["name"] == "Vec":
+                    el = ty["args"][0]["name"]
+                    cap = cap_of(ty, it["module"])
+                    if el == "KnownPublicKeyCredentialParameters":
+                        ki = [i2 for i2 in self.impls if i2["module"] == "arbitrary" and
+                              i2["self_ty"].replace(" ", "").endswith("KnownPublicKeyCredentialParameters")]
+                        kb = [f for f in ki[0]["items"] if f["kind"] == "fn"][0]["body"].replace(" ", "") if ki else ""
+                        if kb != "{letalg=*u.choose(&webauthn::KNOWN_ALGS)?;Ok(Self{alg})}":
+                            raise Untranslatable("KnownPublicKeyCredentialParameters::arbitrary", "body not recognised")
+                        known = None
+                        for c in self.by_name.get("KNOWN_ALGS", []):
+                            known = c
+                        vals = [self.const_value(x.strip(), known["module"], feats) for x in known["expr"].strip("[] ").split(",") if x.strip()]
+                        d = {"k": "vecChoose", "cap": cap, "table": vals}
+                    else:
+                        en = self.lookup(el, it["module"], ("enum",), feats)
+                        if en is None or any(v["fields"] for v in en["variants"]) or \
+                                "Arbitrary" not in derives(effective_attrs(en["attrs"], feats)[1]):
+                            raise Untranslatable(el, "expected a field-less enum deriving Arbitrary")
+                        d = {"k": "vecEnum", "cap": cap, "count": len(self.variant_names(en, feats))}
+                else:
+                    raise Untranslatable("arbitrary::" + name, f"draw not recognised: {var} = {expr[:80]}")
+                d["field"] = i
+                draws.append(d)
+            impls.append({"type": module + "::" + name, "draws": draws, "nfields": len(fields)})
+        return {"shape": shape, "impls": impls}
 
     def byte_arms(self, m, module, owner):
         arms = []
